@@ -68,7 +68,7 @@ def run_checks(sd, checks, tier="quick"):
     res = {}
     try:
         for c in checks:
-            env = dict(os.environ, VERIF_REPO=d, VERIF_TIER=tier)
+            env = dict(os.environ, VERIF_REPO=d, VERIF_TIER=tier, VERIF_RUN_ID=os.path.basename(d))
             r = subprocess.run([os.path.join(V, "check"), c, "--tier", tier], cwd=V, env=env, capture_output=True, text=True)
             lines = [l for l in r.stdout.splitlines() if l.startswith(("VIOLATION", "KNOWN-FINDING", "NONCONFORMANCE")) or l.startswith(c + ":")]
             res[c] = {"exit": r.returncode, "lines": [l[:260] for l in lines[:6]], "err": r.stderr[-300:] if r.returncode == 2 else ""}
